@@ -1,15 +1,141 @@
-(* Props/C02.v — password-mode round trip (chunk layer so far; handshake and file layer are being added). *)
-From Kestrel Require Import Bytes Outcome IO Prims.
-From Kestrel.Model Require Import AeadWrap Chunks.
-From Kestrel.Proofs Require Import ChunksDec.
+(* Props/C02.v — property C02: password-mode round trip; other passwords are rejected and release nothing.
+   Statements only; proofs are in Proofs/CombineFiles.v and Proofs/CombineReject.v.
+
+   Reading guide: see Props/C01.v for [prims], [aead_ok], [hash_ok], io states and conforming scripts.
+   Passwords are arbitrary byte strings [pw] (any length, including the empty string; non-ASCII text is its
+   UTF-8 bytes), salts are 32 bytes.  [kdf P pw salt] = scrypt(pw, salt, N = 32768, r = 8, p = 1, 32 bytes).
+
+   The wrong-password theorems are PARTIAL in the sense of DESIGN section 4: "pw' derives a different key under
+   which nothing opens" is a cryptographic idealisation and appears as an explicit premise over the run's own
+   event log — no AEAD open under scrypt(pw', salt) succeeded.  What the theorems establish is the ORDERING:
+   without a successful open nothing reaches the sink and the result is an error. *)
+From Kestrel Require Import Bytes Outcome IO IOFacts Prims.
+From Kestrel.gen Require Import Extracted.
+From Kestrel.Model Require Import AeadWrap Chunks Noise NoiseSpec Files EventPreds FilesSpec ChunksSpec CombineDefs.
+From Kestrel.Proofs Require Import ChunksDec ChunksEnc ChunksOpen CombineFiles CombineReject.
 Local Open Scope N_scope.
 
+(* THE ROUND TRIP.  For every password pw (any byte string, incl. []), every 32-byte salt, every encrypt-side io state with conforming scripts and empty sink (= every plaintext, every read/write partition): pass_encrypt returns Ok, and for every decrypt-side io state with conforming scripts whose data is the bytes written, pass_decrypt pw returns Ok and writes exactly the original plaintext *)
+Theorem C02_pass_file_roundtrip :
+  forall (P : prims) (pw : bytes) (salt : list N),
+  aead_ok P ->
+  hash_ok P ->
+  length salt = 32%nat ->
+  forall s0 : io,
+  reader_ok (rdr s0) ->
+  writer_ok (wtr s0) ->
+  w_out (wtr s0) = [] ->
+  exists s0' : io,
+    pass_encrypt P pw salt s0 = (Ok tt, s0') /\
+    (forall s1 : io,
+     reader_ok (rdr s1) ->
+     writer_ok (wtr s1) ->
+     r_data (rdr s1) = w_out (wtr s0') ->
+     w_out (wtr s1) = [] ->
+     exists s1' : io, pass_decrypt P pw s1 = (Ok tt, s1') /\ w_out (wtr s1') = r_data (rdr s0)).
+Proof. exact (pass_file_roundtrip). Qed.
+Print Assumptions C02_pass_file_roundtrip.
+
+(* general form: sinks may already hold bytes (F = what this run appended); the first 36 bytes of F are magic ++ salt; the decryptor consumed the whole file *)
+Theorem C02_pass_file_roundtrip_gen :
+  forall (P : prims) (pw : bytes) (salt : list N),
+  aead_ok P ->
+  hash_ok P ->
+  length salt = 32%nat ->
+  forall s0 : io,
+  reader_ok (rdr s0) ->
+  writer_ok (wtr s0) ->
+  exists (s0' : io) (F : list N),
+    pass_encrypt P pw salt s0 = (Ok tt, s0') /\
+    w_out (wtr s0') = w_out (wtr s0) ++ F /\
+    firstn 36 F = x_pass_file_magic ++ salt /\
+    (forall s1 : io,
+     reader_ok (rdr s1) ->
+     writer_ok (wtr s1) ->
+     r_data (rdr s1) = F ->
+     exists s1' : io,
+       pass_decrypt P pw s1 = (Ok tt, s1') /\
+       w_out (wtr s1') = w_out (wtr s1) ++ r_data (rdr s0) /\ r_data (rdr s1') = []).
+Proof. exact (pass_file_roundtrip_gen). Qed.
+Print Assumptions C02_pass_file_roundtrip_gen.
+
+(* WRONG PASSWORD, honest file.  F is the file written by pass_encrypt pw salt (any plaintext, any conforming schedule).  pass_decrypt pw' reads F through ANY conforming reader; the writer is ARBITRARY (any script).  Premise: among the new events d of the run no AEAD open under scrypt(pw', salt) succeeded.  Then the result is exactly Err DChaPolyDecrypt, the writer state is literally unchanged (wtr s1' = wtr s1: not one Write::write or flush call was made), and no event of the run is a sink event. *)
+Theorem C02_pass_wrong_password_rejected :
+  forall P : prims,
+  hash_ok P ->
+  forall (pw pw' : bytes) (salt : list N) (s0 s0' : io) (F : list N) (s1 : io) 
+    (res : outcome derr unit) (s1' : io) (d : list event),
+  aead_ok P ->
+  length salt = 32%nat ->
+  reader_ok (rdr s0) ->
+  writer_ok (wtr s0) ->
+  pass_encrypt P pw salt s0 = (Ok tt, s0') ->
+  w_out (wtr s0') = w_out (wtr s0) ++ F ->
+  reader_ok (rdr s1) ->
+  r_data (rdr s1) = F ->
+  pass_decrypt P pw' s1 = (res, s1') ->
+  log s1' = d ++ log s1 ->
+  (forall (m : N) (ad ct pt : bytes), ~ In (EvOpen (kdf P pw' salt) m ad ct (Some pt)) d) ->
+  res = Err DChaPolyDecrypt /\ wtr s1' = wtr s1 /\ Forall no_out_ev d.
+Proof. exact (pass_wrong_password_rejected). Qed.
+Print Assumptions C02_pass_wrong_password_rejected.
+
+(* the same ordering fact for EVERY offered byte string that begins magic ++ salt (honest or not) and EVERY script on both sides (short reads, faults): no successful open under scrypt(pw', salt) during the run implies the result is an Err — never Ok, and not UnexpectedData or a write error — and the sink holds exactly what it held before, no write or flush call having been made *)
+Theorem C02_no_open_no_output :
+  forall P : prims,
+  hash_ok P ->
+  forall (pw' : bytes) (salt rest : list N) (s : io) (res : outcome derr unit) 
+    (s' : io) (d : list event),
+  length salt = 32%nat ->
+  r_data (rdr s) = x_pass_file_magic ++ salt ++ rest ->
+  pass_decrypt P pw' s = (res, s') ->
+  log s' = d ++ log s ->
+  (forall (m : N) (ad ct pt : bytes), ~ In (EvOpen (kdf P pw' salt) m ad ct (Some pt)) d) ->
+  (exists e : derr, res = Err e /\ e <> DUnexpectedData /\ (forall ie : ioerr, e <> DIOWrite ie)) /\
+  w_out (wtr s') = w_out (wtr s) /\ Forall no_out_ev d.
+Proof. exact (pass_no_open_no_output). Qed.
+Print Assumptions C02_no_open_no_output.
+
+(* chunk layer, every io state: no successful open under the key in the whole log implies an error (one of three), not Ok, sink untouched *)
+Theorem C02_chunks_wrong_key_rejected :
+  forall (P : prims) (key aad : bytes) (cs : N),
+  length key = 32%nat ->
+  forall (s : io) (res : outcome derr unit) (s' : io),
+  log s = [] ->
+  decrypt_chunks P key aad cs s = (res, s') ->
+  (forall (m : N) (ad ct pt : bytes), ~ In (EvOpen key m ad ct (Some pt)) (log s')) ->
+  (res = Err DChaPolyDecrypt \/ res = Err DChunkLen \/ (exists e : ioerr, res = Err (DIORead e))) /\
+  res <> Ok tt /\ w_out (wtr s') = w_out (wtr s) /\ Forall no_out_ev (log s').
+Proof. exact (wrong_key_rejected). Qed.
+Print Assumptions C02_chunks_wrong_key_rejected.
+
+(* contrapositive at the chunk layer: an accepted run contains a successful open under the key *)
+Theorem C02_ok_has_open :
+  forall (P : prims) (key aad : bytes) (cs : N),
+  length key = 32%nat ->
+  forall (fuel : nat) (n : N) (s s' : io),
+  decrypt_chunks_loop P fuel key aad cs n s = (Ok tt, s') ->
+  exists d : list event,
+    log s' = d ++ log s /\ (exists (m : N) (ad ct pt : bytes), In (EvOpen key m ad ct (Some pt)) d).
+Proof. exact (dec_ok_has_open). Qed.
+Print Assumptions C02_ok_has_open.
+
+(* (kept from the earlier version) chunk layer: every legal chunking decrypts under every conforming schedule *)
 Theorem C02_chunks_decrypt_under_every_schedule :
-  forall (P : prims) (key aad : bytes) (cs : N), length key = 32%nat -> aead_ok P -> cs < 4294967296 ->
-  forall chunks n s fuel, chunks <> [] -> Forall (chunk_ok cs) chunks ->
-    reader_ok (rdr s) -> writer_ok (wtr s) ->
-    r_data (rdr s) = spec_chunks_from P key aad n chunks -> (length chunks <= fuel)%nat ->
-    exists s', decrypt_chunks_loop P fuel key aad cs n s = (Ok tt, s') /\
-               w_out (wtr s') = w_out (wtr s) ++ concat chunks /\ r_data (rdr s') = [].
-Proof. intros P key aad cs Hk Ha Hc. exact (dec_spec_chunks_ok P key aad cs Hk Ha Hc). Qed.
+  forall (P : prims) (key aad : bytes) (cs : N),
+  length key = 32%nat ->
+  aead_ok P ->
+  cs < 4294967296 ->
+  forall (chunks : list bytes) (n : N) (s : io) (fuel : nat),
+  chunks <> [] ->
+  Forall (chunk_ok cs) chunks ->
+  reader_ok (rdr s) ->
+  writer_ok (wtr s) ->
+  r_data (rdr s) = spec_chunks_from P key aad n chunks ->
+  (length chunks <= fuel)%nat ->
+  exists s' : io,
+    decrypt_chunks_loop P fuel key aad cs n s = (Ok tt, s') /\
+    w_out (wtr s') = w_out (wtr s) ++ concat chunks /\ r_data (rdr s') = [].
+Proof. exact (dec_spec_chunks_ok). Qed.
 Print Assumptions C02_chunks_decrypt_under_every_schedule.
+
